@@ -7,6 +7,8 @@ import (
 	"fmt"
 	"math/rand"
 	"os"
+	"sync/atomic"
+	"time"
 
 	"github.com/fullstorydev/emulators/storage/gcsemu"
 )
@@ -88,7 +90,15 @@ func (c *GConcCase) pseudo() Case {
 	return pc
 }
 
+// wedgedCases: see harness/bt: after a few cases whose threads never finish the rest is not executed.
+var wedgedCases atomic.Int32
+
+const maxWedged = 8
+
 func runGConc(mk storeMaker, setup []Req, threads [][]Req, sched []int, final []Req, tag string) *GConcCase {
+	if wedgedCases.Load() >= maxWedged {
+		return nil
+	}
 	st, cleanup := mk.mk()
 	defer cleanup()
 	e := NewEmu(st)
@@ -98,24 +108,36 @@ func runGConc(mk storeMaker, setup []Req, threads [][]Req, sched []int, final []
 	}
 	s := NewSched(e, threads)
 	step := func(i int) {
-		o := s.Step(i)
-		c.Sched = append(c.Sched, i)
-		c.Obs = append(c.Obs, o)
+		s.StepPref(i, func(j int, o Outcome) {
+			c.Sched = append(c.Sched, j)
+			c.Obs = append(c.Obs, o)
+		})
 	}
 	for _, i := range sched {
 		step(i)
 	}
-	for round := 0; round < 200; round++ {
-		busy := false
+	busy := true
+	deadline := time.Now().Add(30 * time.Second)
+	for round := 0; round < 200 && busy && time.Now().Before(deadline); round++ {
+		busy = false
 		for i, t := range s.threads {
 			if !t.dead && (t.running || t.parked != "" || len(t.todo) > 0) {
 				busy = true
 				step(i)
 			}
 		}
-		if !busy {
-			break
+	}
+	for _, t := range s.threads {
+		if t.dead {
+			busy = true
 		}
+	}
+	if busy {
+		// some thread never finished: an object lock may be held for ever; the final probes are not
+		// run (the recorded steps already differ from the model, where every schedule drains)
+		wedgedCases.Add(1)
+		c.Final = nil
+		return c
 	}
 	for _, f := range final {
 		c.FinalR = append(c.FinalR, e.Exec(f))
@@ -132,6 +154,25 @@ func c07Setup() []Req {
 		{Kind: "upload_media", B: c07B, N: "s2", CType: "text/plain", Data: []byte("S2-"), CP: noConds},
 	}
 }
+
+// c07Sessions: resumable sessions opened (sequentially) before the threads start; ids are the
+// emulator's counter values "1".."12": 1-6 conditioned on obj's generation at that time, 7-12 not.
+const c07NSess = 6
+
+func c07SetupSessions() []Req {
+	out := c07Setup()
+	genCur := [4]CParam{GenOf(c07B, "obj", 0), Raw(""), Raw(""), Raw("")}
+	for i := 1; i <= 2*c07NSess; i++ {
+		cp := genCur
+		if i > c07NSess {
+			cp = noConds
+		}
+		out = append(out, Req{Kind: "resumable_init", B: c07B, Up: &UpMeta{Name: "obj", CType: fmt.Sprintf("text/r%d", i), Meta: [][2]string{{"sess", fmt.Sprint(i)}}}, CP: cp})
+	}
+	return out
+}
+
+const c07Kinds = 12
 
 // request kinds on the shared object "obj" (or on the absent object "fresh" for must-not-exist)
 func c07Request(kind, variant int) (Req, int) {
@@ -158,6 +199,15 @@ func c07Request(kind, variant int) (Req, int) {
 		return Req{Kind: "get_meta", B: c07B, N: "obj"}, 1
 	case 8:
 		return Req{Kind: "get_media", B: c07B, N: "obj"}, 1
+	case 10, 11:
+		// the PUT that completes a resumable upload of obj (session opened in the setup)
+		id := variant
+		if kind == 11 {
+			id += c07NSess
+		}
+		data := []byte("resumed-" + v)
+		cr := fmt.Sprintf("bytes 0-%d/%d", len(data)-1, len(data))
+		return Req{Kind: "resumable_put", B: c07B, ID: fmt.Sprint(id), CRange: &cr, Data: data}, 2
 	}
 	// an upload that changes a compose SOURCE (not the locked destination)
 	return Req{Kind: "upload_media", B: c07B, N: "s1", CType: "text/plain", Data: []byte("S1new" + v + "-"), CP: noConds}, 2
@@ -226,8 +276,8 @@ func genC07(out, tier string, rng *rand.Rand) {
 	}
 	var jobs []job
 	for _, mk := range stores() {
-		for ka := 0; ka < 10; ka++ {
-			for kb := 0; kb < 10; kb++ {
+		for ka := 0; ka < c07Kinds; ka++ {
+			for kb := 0; kb < c07Kinds; kb++ {
 				ra, na := c07Request(ka, 1)
 				rb, nb := c07Request(kb, 2)
 				if na == 1 && nb == 1 {
@@ -244,8 +294,8 @@ func genC07(out, tier string, rng *rand.Rand) {
 			mk := stores()[rng.Intn(2)]
 			var threads [][]Req
 			for t := 0; t < 3; t++ {
-				r1, _ := c07Request(rng.Intn(10), t+1)
-				r2, _ := c07Request(rng.Intn(10), t+4)
+				r1, _ := c07Request(rng.Intn(c07Kinds), t+1)
+				r2, _ := c07Request(rng.Intn(c07Kinds), t+4)
 				threads = append(threads, []Req{r1, r2})
 			}
 			var sch []int
@@ -257,9 +307,13 @@ func genC07(out, tier string, rng *rand.Rand) {
 	}
 	results := make([]*GConcCase, len(jobs))
 	parallel(len(jobs), func(i int) {
-		results[i] = runGConc(jobs[i].mk, c07Setup(), jobs[i].threads, jobs[i].sched, final, jobs[i].tag)
+		results[i] = runGConc(jobs[i].mk, c07SetupSessions(), jobs[i].threads, jobs[i].sched, final, jobs[i].tag)
 	})
 	for _, c := range results {
+		if c == nil {
+			sink.stats.Skipped++
+			continue
+		}
 		js, _ := json.Marshal(c)
 		nt := false
 		for _, o := range c.Obs {
@@ -273,5 +327,5 @@ func genC07(out, tier string, rng *rand.Rand) {
 	mix := Case{Store: "file", Tag: "file-add-mixture", Prog: []Req{{Kind: "get_bucket", B: "no-such-bucket"}}, Obs: []Resp{{Status: 404, Kind: "none", Notes: fileMixtureNotes()}}}
 	js, _ := json.Marshal(mix)
 	sink.AddPreV("seq", "check_all", "(list req * list resp)", mix, mix.coq(), js, true)
-	sink.Close("every interleaving (at the yield point between precondition check and store mutation, where the object lock is held) of two requests drawn from {unconditional upload, upload conditioned on the current generation, upload conditioned on non-existence, patch conditioned on the current metageneration, delete, compose with the destination among its sources, copy onto the object, metadata GET, media GET, upload of a compose source} on one object, each schedule followed by a recorded round-robin drain; every step (parked / blocked on the object lock / returned + response) and the final state are compared with the interleaving model; both stores; plus the file store's three-step Add observed by a lock-free reader (tag file-add-mixture); thorough adds sampled three-thread schedules; non-trivial = some step was blocked on the object lock", true)
+	sink.Close("every interleaving (at the yield point between precondition check and store mutation, where the object lock is held) of two requests drawn from {unconditional upload, upload conditioned on the current generation, upload conditioned on non-existence, patch conditioned on the current metageneration, delete, compose with the destination among its sources, copy onto the object, metadata GET, media GET, upload of a compose source, the completing PUT of a resumable upload conditioned on the generation at session start, the same unconditioned} on one object, each schedule followed by a recorded round-robin drain; every step (parked / blocked on the object lock / returned + response) and the final state are compared with the interleaving model; both stores; plus the file store's three-step Add observed by a lock-free reader (tag file-add-mixture); thorough adds sampled three-thread schedules; non-trivial = some step was blocked on the object lock", true)
 }
